@@ -20,6 +20,20 @@ pub fn base_files(tier: Tier) -> Vec<(String, XzFile)> {
             .collect();
         XzFile { check_id: check, blocks, ..Default::default() }
     };
+    // blocks that agree in one index field and differ in the other: same unpadded size (9 bytes of LZMA2 each), content of
+    // 5 / 2 / 5 / 3 bytes; and same content size with different unpadded sizes
+    {
+        use crate::refmodel::lzma2::{self, Chunk};
+        let st = |parts: &[&[u8]]| -> (Vec<u8>, Vec<u8>) {
+            let cs: Vec<Chunk> = parts.iter().enumerate().map(|(k, d)| Chunk::U { reset: k == 0, data: d.to_vec() }).collect();
+            let w = lzma2::write(&cs);
+            (w.bytes, w.expect)
+        };
+        let mk_blocks = |ps: Vec<(Vec<u8>, Vec<u8>)>| -> Vec<Block> { ps.into_iter().map(|(p, plain)| Block { payload: p, plain, ..Default::default() }).collect() };
+        v.push(("2 blocks of equal unpadded size, 5/2 content bytes, check 1".into(), XzFile { check_id: 1, blocks: mk_blocks(vec![st(&[&b"abcde"[..]]), st(&[&b"f"[..], &b"g"[..]])]), ..Default::default() }));
+        v.push(("4 blocks of equal unpadded size, 5/2/5/2 content bytes, check 1".into(), XzFile { check_id: 1, blocks: mk_blocks(vec![st(&[&b"abcde"[..]]), st(&[&b"f"[..], &b"g"[..]]), st(&[&b"hijkl"[..]]), st(&[&b"m"[..], &b"n"[..]])]), ..Default::default() }));
+        v.push(("3 blocks of equal content size, different unpadded sizes, check 4".into(), XzFile { check_id: 4, blocks: mk_blocks(vec![st(&[&b"abcd"[..]]), st(&[&b"ef"[..], &b"gh"[..]]), st(&[&b"i"[..], &b"j"[..], &b"k"[..], &b"l"[..]])]), ..Default::default() }));
+    }
     for (nb, check, sizes, pad) in [(1, 1, false, 0), (1, 4, true, 1), (2, 1, true, 0), (3, 4, false, 2), (1, 0, true, 0), (2, 0, false, 1), (0, 1, false, 0)] {
         v.push((format!("{} block(s) check {} size-fields {} extra-pad {}", nb, check, sizes, pad), mk(nb, check, sizes, pad)));
     }
@@ -238,6 +252,26 @@ pub fn field_mutants(f: &XzFile) -> Vec<(String, XzFile)> {
                 let mut g = f.clone();
                 g.o_records = Some(rs);
                 out.push((format!("index record {} {} {} := {}", bi, if which == 0 { "unpadded size" } else { "uncompressed size" }, t, v), g));
+            }
+        }
+    }
+    // one record's field replaced by the SAME field of another record (a decoder that keeps its records in some compressed
+    // or keyed form may answer with a neighbour's value)
+    for i in 0..recs.len() {
+        for j in 0..recs.len() {
+            for which in 0..2 {
+                let (ti, tj) = if which == 0 { (recs[i].0, recs[j].0) } else { (recs[i].1, recs[j].1) };
+                if i != j && ti != tj {
+                    let mut rs: Vec<(Vec<u8>, Vec<u8>)> = recs.iter().map(|(a, b)| (mbi(*a), mbi(*b))).collect();
+                    if which == 0 {
+                        rs[i].0 = mbi(tj)
+                    } else {
+                        rs[i].1 = mbi(tj)
+                    }
+                    let mut g = f.clone();
+                    g.o_records = Some(rs);
+                    out.push((format!("index record {} {} {} := {} (the value of record {})", i, if which == 0 { "unpadded size" } else { "uncompressed size" }, ti, tj, j), g));
+                }
             }
         }
     }
